@@ -23,10 +23,11 @@ import (
 )
 
 type caseT struct {
-	Target string `json:"target"` // i8..u64 | decimal(p,s) | coldecimal(p,s) | varchar(n) | char(n) | varbinary(n)
-	Src    string `json:"src"`    // int8..uint64 | int | uint | decimal | string
-	Text   string `json:"text"`   // the source value as text
-	Mode   string `json:"mode"`   // convert | insert | insert-ignore
+	Target string   `json:"target"` // i8..u64 | decimal(p,s) | coldecimal(p,s) | varchar(n) | char(n) | varbinary(n)
+	Src    string   `json:"src"`    // int8..uint64 | int | uint | decimal | string
+	Text   string   `json:"text"`   // the source value as text
+	Mode   string   `json:"mode"`   // convert | insert | insert-ignore | insert-temporal | insert-ignore-row
+	Row    []rowCol `json:"row,omitempty"`
 }
 
 type intType struct {
@@ -314,6 +315,14 @@ var strAlphabet = []string{"a", "b", "Z", "0", "9", " ", "Ã©", "ÃŸ", "æ—¥", "ðŸ˜
 func gen(r *lib.RNG) caseT {
 	var c caseT
 	c.Mode = "convert"
+	switch r.Intn(12) {
+	case 0:
+		return genTemporal(r)
+	case 1:
+		if r.Bool() {
+			return genRow(r)
+		}
+	}
 	switch r.Intn(20) {
 	case 0, 1: // strings into string types (implementation-side predicate only)
 		n := r.Range(0, 8)
@@ -414,6 +423,23 @@ func sqlType(t string) string {
 }
 
 func run(c *lib.Ctx, cs caseT) {
+	if cs.Mode == "insert-temporal" || cs.Mode == "insert-ignore-row" {
+		c.Count("mode:" + cs.Mode)
+		f := func(id int, sig, what string) {
+			sigSeen[sig]++
+			if sigSeen[sig] <= 5 {
+				c.PredFail(id, sig, what, cs)
+			} else {
+				c.Count("predicate_failure:" + sig)
+			}
+		}
+		if cs.Mode == "insert-temporal" {
+			runTemporal(c, cs, f)
+		} else {
+			runRow(c, cs, f)
+		}
+		return
+	}
 	typ, it, p, s, col, tkind := parseTarget(cs.Target)
 	c.Count("target:" + tkind)
 	c.Count("mode:" + cs.Mode)
@@ -723,31 +749,46 @@ func main() {
 			return
 		}
 		corpus := []caseT{
-			{"u8", "int64", "-1", "convert"}, {"u8", "int64", "-300", "convert"}, {"u16", "int8", "-1", "convert"},
-			{"u24", "int32", "-1", "convert"}, {"u32", "int64", "-5", "convert"}, {"u64", "int64", "-1", "convert"},
-			{"u64", "decimal", "-1", "convert"}, {"u64", "decimal", "-0.4", "convert"}, {"u64", "decimal", "-5", "convert"},
-			{"u64", "int64", "-9223372036854775808", "convert"},
-			{"i8", "int64", "128", "convert"}, {"i8", "int64", "-129", "convert"}, {"i8", "uint64", "18446744073709551615", "convert"},
-			{"i64", "uint64", "9223372036854775808", "convert"}, {"i64", "decimal", "9223372036854775807.4", "convert"},
-			{"i64", "decimal", "-9223372036854775808.5", "convert"}, {"i32", "decimal", "2147483647.5", "convert"},
-			{"i32", "decimal", "2147483647.4", "convert"}, {"i8", "decimal", "-0.5", "convert"}, {"i8", "decimal", "0.49999", "convert"},
-			{"u8", "decimal", "-0.4", "convert"}, {"u8", "decimal", "255.5", "convert"},
-			{"coldecimal(10,2)", "decimal", "1.005", "convert"}, {"coldecimal(10,2)", "decimal", "99999999.995", "convert"},
-			{"decimal(10,2)", "decimal", "1.5", "convert"}, {"coldecimal(5,0)", "int64", "99999", "convert"},
-			{"coldecimal(5,0)", "int64", "100000", "convert"}, {"coldecimal(3,3)", "decimal", "0.9995", "convert"},
-			{"coldecimal(65,30)", "uint64", "18446744073709551615", "convert"},
-			{"u8", "int64", "-1", "insert"}, {"u8", "int64", "-1", "insert-ignore"}, {"u8", "int64", "300", "insert-ignore"},
-			{"i8", "int64", "-300", "insert-ignore"}, {"u16", "int64", "-2", "insert-ignore"}, {"u24", "int64", "-2", "insert-ignore"},
-			{"u32", "int64", "-2", "insert-ignore"}, {"u64", "int64", "-2", "insert-ignore"},
-			{"coldecimal(5,2)", "decimal", "1000.5", "insert-ignore"}, {"coldecimal(5,2)", "decimal", "-1000.5", "insert-ignore"}, {"coldecimal(5,2)", "decimal", "1.005", "insert"},
-			{"i32", "decimal", "1.5", "insert"},
-			{"varchar(3)", "string", "æ—¥æœ¬èªž", "convert"}, {"varchar(3)", "string", "abcd", "convert"}, {"varbinary(3)", "string", "Ã©1", "convert"},
-			{"i32", "string", "", "insert"}, {"i32", "string", "-", "insert"}, {"u8", "string", "12abc", "insert"}, {"u8", "string", "300", "insert"},
-			{"i8", "string", "12", "insert"}, {"i64", "string", "-9223372036854775809", "insert"}, {"i64", "string", "9223372036854775808", "insert"},
-			{"u64", "string", "18446744073709551616", "insert"}, {"i64", "string", "9223372036854775808", "convert"}, {"i32", "string", "", "convert"},
-			{"u24", "decimal", "-18446744073709551617.5", "convert"},
-			{"i8", "string", "12abc", "convert"}, {"i8", "string", "127", "convert"}, {"i8", "string", "128", "convert"}, {"u8", "string", "-1", "convert"},
+			{"u8", "int64", "-1", "convert", nil}, {"u8", "int64", "-300", "convert", nil}, {"u16", "int8", "-1", "convert", nil},
+			{"u24", "int32", "-1", "convert", nil}, {"u32", "int64", "-5", "convert", nil}, {"u64", "int64", "-1", "convert", nil},
+			{"u64", "decimal", "-1", "convert", nil}, {"u64", "decimal", "-0.4", "convert", nil}, {"u64", "decimal", "-5", "convert", nil},
+			{"u64", "int64", "-9223372036854775808", "convert", nil},
+			{"i8", "int64", "128", "convert", nil}, {"i8", "int64", "-129", "convert", nil}, {"i8", "uint64", "18446744073709551615", "convert", nil},
+			{"i64", "uint64", "9223372036854775808", "convert", nil}, {"i64", "decimal", "9223372036854775807.4", "convert", nil},
+			{"i64", "decimal", "-9223372036854775808.5", "convert", nil}, {"i32", "decimal", "2147483647.5", "convert", nil},
+			{"i32", "decimal", "2147483647.4", "convert", nil}, {"i8", "decimal", "-0.5", "convert", nil}, {"i8", "decimal", "0.49999", "convert", nil},
+			{"u8", "decimal", "-0.4", "convert", nil}, {"u8", "decimal", "255.5", "convert", nil},
+			{"coldecimal(10,2)", "decimal", "1.005", "convert", nil}, {"coldecimal(10,2)", "decimal", "99999999.995", "convert", nil},
+			{"decimal(10,2)", "decimal", "1.5", "convert", nil}, {"coldecimal(5,0)", "int64", "99999", "convert", nil},
+			{"coldecimal(5,0)", "int64", "100000", "convert", nil}, {"coldecimal(3,3)", "decimal", "0.9995", "convert", nil},
+			{"coldecimal(65,30)", "uint64", "18446744073709551615", "convert", nil},
+			{"u8", "int64", "-1", "insert", nil}, {"u8", "int64", "-1", "insert-ignore", nil}, {"u8", "int64", "300", "insert-ignore", nil},
+			{"i8", "int64", "-300", "insert-ignore", nil}, {"u16", "int64", "-2", "insert-ignore", nil}, {"u24", "int64", "-2", "insert-ignore", nil},
+			{"u32", "int64", "-2", "insert-ignore", nil}, {"u64", "int64", "-2", "insert-ignore", nil},
+			{"coldecimal(5,2)", "decimal", "1000.5", "insert-ignore", nil}, {"coldecimal(5,2)", "decimal", "-1000.5", "insert-ignore", nil}, {"coldecimal(5,2)", "decimal", "1.005", "insert", nil},
+			{"i32", "decimal", "1.5", "insert", nil},
+			{"varchar(3)", "string", "æ—¥æœ¬èªž", "convert", nil}, {"varchar(3)", "string", "abcd", "convert", nil}, {"varbinary(3)", "string", "Ã©1", "convert", nil},
+			{"i32", "string", "", "insert", nil}, {"i32", "string", "-", "insert", nil}, {"u8", "string", "12abc", "insert", nil}, {"u8", "string", "300", "insert", nil},
+			{"i8", "string", "12", "insert", nil}, {"i64", "string", "-9223372036854775809", "insert", nil}, {"i64", "string", "9223372036854775808", "insert", nil},
+			{"u64", "string", "18446744073709551616", "insert", nil}, {"i64", "string", "9223372036854775808", "convert", nil}, {"i32", "string", "", "convert", nil},
+			{"u24", "decimal", "-18446744073709551617.5", "convert", nil},
+			{"i8", "string", "12abc", "convert", nil}, {"i8", "string", "127", "convert", nil}, {"i8", "string", "128", "convert", nil}, {"u8", "string", "-1", "convert", nil},
 		}
+		tmp := func(t, x string) caseT { return caseT{Target: t, Src: "string", Text: x, Mode: "insert-temporal"} }
+		for p := 0; p <= 6; p++ { // malformed text with a parsable prefix, every fsp
+			corpus = append(corpus, tmp(fmt.Sprintf("datetime(%d)", p), "2023-01-15 10:30:45abc"), tmp(fmt.Sprintf("datetime(%d)", p), "2023-02-30 10:00:00"),
+				tmp(fmt.Sprintf("timestamp(%d)", p), "2023-01-15 10:30:45abc"), tmp(fmt.Sprintf("datetime(%d)", p), "2023-01-15 10:30:45.5"),
+				tmp(fmt.Sprintf("datetime(%d)", p), "1500-06-15 23:59:59.999999"))
+		}
+		corpus = append(corpus, tmp("date", "2023-02-30"), tmp("date", "2023-01-15abc"), tmp("date", "1500-06-15"), tmp("datetime(6)", "2023-01-15 25:00:00"),
+			tmp("datetime(6)", "abc"), tmp("time(6)", "10:30:45abc"), tmp("time(6)", "11:59:30.451048abc"), tmp("time(6)", "00:00:00.499999 foo"), tmp("time(6)", "999:59:59"), tmp("time(6)", "839:00:00"), tmp("time(6)", "10:61:45"), tmp("year", "20x"), tmp("year", "1900"), tmp("year", "2023"),
+			tmp("datetime(6)", "9998-12-31 23:59:59.999999"), tmp("datetime(0)", "1000-01-01 00:00:00"))
+		rowc := func(cols ...rowCol) caseT { return caseT{Mode: "insert-ignore-row", Row: cols} }
+		corpus = append(corpus,
+			rowc(rowCol{"tinyint", "1000", "over"}, rowCol{"mediumint", "9000000", "over"}, rowCol{"decimal(4,2)", "1.239", "frac"}),
+			rowc(rowCol{"tinyint", "5", "fit"}, rowCol{"mediumint", "9000000", "over"}, rowCol{"decimal(4,2)", "1.239", "frac"}),
+			rowc(rowCol{"tinyint", "'abc'", "junk"}, rowCol{"smallint", "-40000", "under"}, rowCol{"int unsigned", "4294967296", "over"}, rowCol{"decimal(10,3)", "2.9999", "frac"}),
+			rowc(rowCol{"bigint", "9223372036854775808", "over"}, rowCol{"tinyint unsigned", "256", "over"}, rowCol{"int", "1.5", "frac"}))
 		for _, cs := range corpus {
 			run(c, cs)
 		}
